@@ -33,6 +33,11 @@ def _num(rng):
     return F(round(rng.uniform(0.01, 3000.0), rng.choice([0, 2, 6])) or 1.0)
 
 
+def _same(a, b):
+    a, b = float(a), float(b)
+    return (math.isnan(a) and math.isnan(b)) or a == b
+
+
 class C14(Prop):
     id = "C14"
     driver = "Exchange"
@@ -236,6 +241,10 @@ class C14(Prop):
                         lu = "none" if ex.last_update is None else str(us(ex.last_update))
                         alive = "true" if book.is_alive else "false"
                         r.op(f"book {mname}", f"{fr(book.bid_price)} {fr(book.ask_price)} {alive} {tm} {lu} {len(h['time'])} {hist}".rstrip())
+                        if (not _same(ex.bid_prices([obj])[0], book.bid_price) or not _same(ex.ask_prices([obj])[0], book.ask_price)
+                                or not _same(ex.spreads([obj])[0], book.ask_price - book.bid_price)):
+                            r.fail("acq-side", key=sym, op="aggregate bid/ask/spread accessors disagree with the book",
+                                   theorem="book_projection")
                         # oracle: last accepted quote, history, dead stays dead
                         if (F(book.bid_price), F(book.ask_price)) != (s["bid"], s["ask"]):
                             r.fail("last-quote-wins", key=sym, reported=[fr(book.bid_price), fr(book.ask_price)],
@@ -246,14 +255,20 @@ class C14(Prop):
                         if s["dead"] and (book.is_alive or not (math.isnan(book.bid_price) and math.isnan(book.ask_price))):
                             r.fail("dead-stays-dead", key=sym, theorem="dead_stays_dead")
                     elif kind == "mid":
-                        v = book.mid_price
+                        # alternately through the book and through the exchange's aggregate accessor
+                        v = book.mid_price if len(r.lines) % 2 else float(ex.mid_prices([obj])[0])
                         r.op(f"mid {mname}", fr(v), Fraction(1, 10**9) * max(1, abs(F(v) or 0)))
                         exp_mid = None if s["bid"] is None or s["ask"] is None else (s["bid"] + s["ask"]) / 2
                         if (F(v) is None) != (exp_mid is None) or (exp_mid is not None and abs(F(v) - exp_mid) > abs(exp_mid) * Fraction(1, 10**12)):
                             r.fail("mid", key=sym, reported=fr(v), expected=fr(exp_mid), theorem="acq_side")
                     else:
                         sg = op[2]
-                        v = book.acq_price(sg) if kind == "acq" else book.liq_price(sg)
+                        if len(r.lines) % 2:
+                            v = book.acq_price(sg) if kind == "acq" else book.liq_price(sg)
+                        else:
+                            v = float(ex.acq_prices([obj], np.array([sg]))[0] if kind == "acq"
+                                      else ex.liq_prices([obj], np.array([sg]))[0])
+                            r.tags.add("aggregate-accessors")
                         r.op(f"{kind} {mname} {sg}", fr(v), Fraction(1, 10**9) * max(1, abs(F(v) or 0)))
                         side = sg if kind == "acq" else -sg
                         want = s["ask"] if side > 0 else s["bid"] if side < 0 else (
